@@ -22,6 +22,7 @@ typedef struct {
     long long ticks;
     long long limit;     /* < 0: none */
     long long hook_at;   /* < 0: none */
+    int opcodes;         /* tick per bytecode instead of per line */
     PyObject *hook;
     PyObject *prefixes;  /* tuple of str */
     PyObject *budget_exc;
@@ -74,7 +75,29 @@ tracefunc(PyObject *obj, PyFrameObject *frame, int what, PyObject *arg)
     PyCodeObject *code;
     int traced;
 
-    if (what != PyTrace_LINE) {
+    if (self->opcodes) {
+        /* Finer clock: one tick per bytecode instruction of traced
+           frames (pre-emption inside a source line). */
+        if (what == PyTrace_CALL) {
+            code = PyFrame_GetCode(frame);
+            traced = is_traced(self, code->co_filename);
+            Py_DECREF(code);
+
+            if (traced) {
+                if (PyObject_SetAttrString((PyObject *)frame,
+                                           "f_trace_opcodes", Py_True) < 0) {
+                    PyErr_Clear();
+                }
+            }
+
+            return 0;
+        }
+
+        if (what != PyTrace_OPCODE) {
+            return 0;
+        }
+    }
+    else if (what != PyTrace_LINE) {
         return 0;
     }
 
@@ -130,6 +153,7 @@ Clock_init(Clock *self, PyObject *args, PyObject *kwargs)
     self->ticks = 0;
     self->limit = -1;
     self->hook_at = -1;
+    self->opcodes = 0;
 
     return 0;
 }
@@ -177,6 +201,8 @@ static PyMemberDef Clock_members[] = {
     {"hook_at", T_LONGLONG, offsetof(Clock, hook_at), 0,
      "tick at which hook is called (<0: never)"},
     {"hook", T_OBJECT, offsetof(Clock, hook), 0, "callable"},
+    {"opcodes", T_INT, offsetof(Clock, opcodes), 0,
+     "count bytecode instructions instead of lines"},
     {NULL}
 };
 
